@@ -1,7 +1,7 @@
-// C19 (second sentence) witness search: MappedWrite / TeeWrite on real code, all byte strings over {marker, other}
+// C19 (second sentence) witness search: MappedWrite / TeeWrite on real code, all byte strings over {marker, CR, other}
 // up to a bound x all ways of chunking them into write calls.
 use crate::Report;
-use libherokubuildpack::write::{mapped, tee};
+use libherokubuildpack::write::{line_mapped, mapped, tee};
 use std::io::Write;
 
 fn reference(input: &[u8], marker: u8) -> Vec<u8> {
@@ -14,12 +14,13 @@ fn reference(input: &[u8], marker: u8) -> Vec<u8> {
 pub fn writers(thorough: bool) -> Report {
     let max = if thorough { 8 } else { 6 };
     let mut r = Report::new(
-        "witness search: all byte strings over {marker, other} up to the bound x all ways of splitting them into consecutive write calls (incl. empty writes at the ends): mapped writer output (after drop) == mapping of each marker-terminated segment and of the non-empty remainder; tee gives both targets the full input; non-trivial = inputs containing a marker",
+        "witness search: all byte strings over {line feed (the marker), carriage return, other} up to the bound, through `mapped` (finished by drop) and `line_mapped` (finished by unwrap) x all ways of splitting them into consecutive write calls (incl. empty writes at the ends): mapped writer output (after drop) == mapping of each marker-terminated segment and of the non-empty remainder; tee gives both targets the full input; non-trivial = inputs containing a marker",
         &format!("length <= {max}, all 2^(n-1) chunkings"),
     );
     for n in 0..=max {
-        for bits in 0..(1u32 << n) {
-            let input: Vec<u8> = (0..n).map(|i| if bits >> i & 1 == 1 { b'\n' } else { b'x' }).collect();
+        for bits in 0..3u32.pow(n as u32) {
+            // alphabet {line feed, carriage return, other}: CR is an ordinary byte for the line-mapped writer ("a\r\n" is the segment a CR LF)
+            let input: Vec<u8> = (0..n).map(|i| match bits / 3u32.pow(i as u32) % 3 { 0 => b'x', 1 => b'\n', _ => b'\r' }).collect();
             let exp = reference(&input, b'\n');
             let cuts = if n == 0 { 1 } else { 1u32 << (n - 1) };
             for cut in 0..cuts {
@@ -35,7 +36,7 @@ pub fn writers(thorough: bool) -> Report {
                 }
                 // the same writes, finished with unwrap() instead of drop: the remainder must be emitted as well
                 {
-                    let mut w = mapped(Vec::new(), b'\n', |mut v| { let mut o = vec![b'[']; o.append(&mut v); o.push(b']'); o });
+                    let mut w = line_mapped(Vec::new(), |mut v| { let mut o = vec![b'[']; o.append(&mut v); o.push(b']'); o });
                     let mut start = 0;
                     for i in 0..n { if i + 1 == n || cut >> i & 1 == 1 { w.write_all(&input[start..=i]).unwrap(); start = i + 1; } }
                     let got = w.unwrap();
